@@ -148,7 +148,7 @@ class Program:
         return txt
 
     def coq(self):
-        return "[" + "; ".join(s.coq for s in self.steps) + "]"
+        return "[" + "; ".join(s.coq + ("; " + s.info["then"] if s.info.get("then") else "") for s in self.steps) + "]"
 
     def kinds(self):
         return [s.kind for s in self.steps]
@@ -181,7 +181,7 @@ class Gen:
         self.rsub = rsub     # probability that a 1:1 join's relational argument is a sorted pipeline of its own
         self.fresh = 0
         self.w = {"join": 1.2, "derive": 2, "select": 1.5, "filter": 2.2, "sort": 2, "take": 1.5, "aggregate": 0.7, "group_agg": 0.9,
-                  "group_take": 0.8, "group_win": 0.8, "win": 1.0, "distinct": 0.5, "append": 0.25, "alljoin": 0.0}
+                  "group_take": 0.8, "group_win": 0.8, "win": 1.0, "distinct": 0.5, "append": 0.25, "alljoin": 0.0, "nested_group": 0.0}
         if weights:
             self.w.update(weights)
         self.max_steps = max_steps
@@ -285,6 +285,8 @@ class Gen:
                     break
             key_pos = kp
         meta = {"order": st["order"], "key_pos": key_pos, "outer_right": bool(st.get("outer_right"))}
+        if st.get("nested_group"):
+            meta["nested_group"] = True
         kinds = [x.kind for x in st["steps"]]
         if self.lets and "join" not in kinds and len(st["steps"]) >= 2 and r.random() < self.lets and not any(k in kinds for k in ("knownjoin", "joinpick", "append")):
             meta["let_at"] = r.randint(1, len(st["steps"]) - 1)       # name a pipeline prefix with `let` and continue from the name
@@ -536,6 +538,38 @@ class Gen:
         st["cols"] = [(None, b) for b in by] + [c for c in st["cols"] if c[1] not in by] + [(None, nm)]
         return Step("group_win", "group {%s} (sort %s | derive {%s = %s %s})" % (", ".join(by), prql_keys(ks), nm, WFNS[w], prql_expr(e)),
                     "TGroupWin %s %s [(Some %d%%N, %s, %s)]" % (coq_names(by), coq_keys(ks), nid(nm), w, coq_expr(e)), by=by, fn=w, keys=ks)
+
+    def t_nested_group(self, st):
+        """a group nested in the body of a group, followed by another transform of the outer body (a nested group that ends the
+        outer body is a compile error, upstream's #3870).  Meaning: the inner group splits every chunk of the outer one, i.e.
+        grouping by both keys -- which Model/Rel.v expresses with the merged key list"""
+        r = self.r
+        if self._qualified(st) or st["joined"] or any(c[1].startswith("?") for c in st["cols"]):
+            return None
+        cand = [c for q, c in st["cols"] if c in ("a", "g", "b", "c")]
+        if len(cand) < 2:
+            return None
+        k1, k2 = r.sample(cand, 2)
+        rest = [c for c in st["cols"] if c[1] not in (k1, k2)]
+        if r.random() < 0.5 and st["uniq"] is not None and (None, "id") in st["cols"] and not st.get("uniq_dropped"):
+            ks = [(r.random() < 0.4, st["uniq"])]
+            n_ = r.randint(1, 2)
+            f = self.selective_filter(rest)
+            st["cols"] = [(None, k1), (None, k2)] + rest
+            st["order"] = None
+            st["nested_group"] = True
+            return Step("nested_group", "group {%s} (group {%s} (sort %s | take %d) | filter %s)" % (k1, k2, prql_keys(ks), n_, prql_expr(f)),
+                        "TGroupTake %s %s None (Some (%d))" % (coq_names([k1, k2]), coq_keys(ks), n_), by=[k1, k2], keys=ks,
+                        then="TFilter %s" % coq_expr(f), flat="PGroup 1 [PGroup 1 [PSort [%s]; PTake]; POther]" % ("true" if ks[0][0] else "false"))
+        items, ci, newcols = self._aggs(rest, r.randint(1, 2))
+        f = self.selective_filter(newcols)
+        st["cols"] = [(None, k1), (None, k2)] + newcols
+        st["order"] = None
+        st["uniq"] = None
+        st["nested_group"] = True
+        return Step("nested_group", "group {%s} (group {%s} (aggregate {%s}) | filter %s)" % (k1, k2, ", ".join(items), prql_expr(f)),
+                    "TGroupAgg %s [%s]" % (coq_names([k1, k2]), "; ".join(ci)), by=[k1, k2],
+                    then="TFilter %s" % coq_expr(f), flat="PGroup 1 [PGroup 1 [PAgg]; POther]")
 
     def t_win(self, st):
         r = self.r
